@@ -100,6 +100,8 @@ def enumerate_states(tier):
         for d in DECOYS:
             states.append(dict(key="h_%s_%s" % (prog, d), prog=prog, scope=d, name="Tr"))
         states.append(dict(key="h_%s_all" % prog, prog=prog, scope="all", name="Tr"))
+        for st in STAMPS:
+            states.append(dict(key="h_%s_%s" % (prog, st), prog=prog, scope=st, name="Tr"))
         for n in NAMES:
             states.append(dict(key="h_%s_named_%s" % (prog, n), prog=prog, scope="none", name=n))
             if tier == "thorough":
@@ -113,6 +115,8 @@ def enumerate_states(tier):
         for d in DECOYS:
             if d not in ("s_Box", "s_Pin"):
                 states.append(dict(key="h_%s_%s" % (prog, d), prog=prog, scope=d, name="Tr"))
+        for st in STAMPS:
+            states.append(dict(key="h_%s_%s" % (prog, st), prog=prog, scope=st, name="Tr"))
         for n in NAMES:
             if n != "Box":
                 states.append(dict(key="h_%s_named_%s" % (prog, n), prog=prog, scope="none", name=n))
@@ -120,15 +124,73 @@ def enumerate_states(tier):
     return states, len(states) - len(PROGRAMS), dict(programs=list(PROGRAMS), decoys=list(DECOYS), trait_names=NAMES)
 
 
+STAMP_IDENTS = ["f1", "f2", "f3", "f4", "f5", "g1", "g2", "h1", "h2", "h", "k", "k2", "m", "deps", "c", "target", "this", "result", "inner", "fut", "tmp", "delegate"]
+STAMPS = ["mr_none", "mr_tr", "mr_idents", "mr_both", "mr_attr_inside", "mr_item_inside"]
+
+
+def stamp_split(items, how):
+    """Attribute and item from different hygiene contexts: the entrait attribute written in the macro body and the item passed in
+    as tokens (mr_attr_inside), or the other way round."""
+    segs = []   # (is_attr, text)
+    for line in items.split("\n"):
+        is_attr = line.strip().startswith("#[::entrait::entrait")
+        if segs and segs[-1][0] == is_attr:
+            segs[-1] = (is_attr, segs[-1][1] + "\n" + line)
+        else:
+            segs.append((is_attr, line))
+    pats, body, call = [], [], []
+    for i, (is_attr, text) in enumerate(segs):
+        if is_attr == (how == "mr_attr_inside"):
+            body.append(text)
+        else:
+            pats.append("{{ $($s%d:tt)* }}" % i)
+            body.append("$($s%d)*" % i)
+            call.append("{{ %s }}" % text)
+    return "macro_rules! stamp {{ (%s) => {{\n    %s\n    }} }}\n    stamp!(%s);" % (" ".join(pats), "\n    ".join(body), " ".join(call))
+
+
+def stamp(items, how):
+    """The program written inside a `macro_rules!` body; `how` says which identifiers arrive as macro arguments (and so carry
+    the hygiene context of the call site, while everything else carries that of the macro definition)."""
+    import re
+    if how in ("mr_attr_inside", "mr_item_inside"):
+        return stamp_split(items, how)
+    args = []
+
+    def arg(text, var):
+        nonlocal items
+        if re.search(text, items):
+            items = re.sub(text, "$" + var, items)
+            args.append((var, None))
+            return True
+        return False
+    vals = {}
+    if how in ("mr_tr", "mr_both"):
+        for text, var, val in ((r"Delegate\{TR\}", "dtr", "Delegate{TR}"), (r"\{TR\}Impl", "tri", "{TR}Impl"), (r"\{TR\}", "tr", "{TR}")):
+            if arg(text, var):
+                vals[var] = val
+    if how in ("mr_idents", "mr_both"):
+        for i, ident in enumerate(STAMP_IDENTS):
+            if arg(r"(?<![A-Za-z0-9_$:])%s(?![A-Za-z0-9_])" % ident, "i%d" % i):
+                vals["i%d" % i] = ident
+    pats = ", ".join("$%s:ident" % v for v, _ in args)
+    call = ", ".join(vals[v] for v, _ in args)
+    return "macro_rules! stamp {{ (%s) => {{\n    %s\n    }} }}\n    stamp!(%s);" % (pats, items, call)
+
+
 def render(s):
     key = s["key"]
     items, client, exp = PROGRAMS[s["prog"]]
+    if s["scope"] in STAMPS:
+        items = stamp(items, s["scope"])
     L = ["mod %s {" % key, "    use super::rt;"]
     if s["scope"] == "all":
         L += ["    " + d for d in DECOYS.values()]
     elif s["scope"].startswith("all_but_"):
         skip = s["scope"][len("all_but_"):]
         L += ["    " + d for k, d in DECOYS.items() if not k.endswith("_" + skip) and k != "v_consts"]
+    elif s["scope"] in STAMPS:
+        pass
     elif s["scope"] != "none":
         L.append("    " + DECOYS[s["scope"]])
     L.append("    " + items.replace("{{", "\x00").replace("}}", "\x01").replace("{TR}", s["name"]).replace("\x00", "{").replace("\x01", "}"))
